@@ -4,12 +4,12 @@
    error, or cut short by the caller's context; chain reorgs in between. *)
 EXTENDS Fetcher
 CONSTANTS MCTypes, MCSlots, MaxCalls, MaxReorgs, Toks, MCConf,
-          AllowStraddle    \* the environment may reorg while an early fetch is in flight
+          WithCancel, AttIdx           \* committee indices of the second attester
 MCInit == Init /\ conf = MCConf
 D(v, ci, cl, ix) == [vidx |-> v, cidx |-> ci, clen |-> cl, idxs |-> ix]
 DefSets(t) ==
   CASE t = "attester" -> {Empty, [p \in {"a"} |-> D(1, 1, 64, <<>>)]}
-                         \cup {[p \in {"a", "b"} |-> IF p = "a" THEN D(1, 1, 64, <<>>) ELSE D(2, ci, 64, <<>>)] : ci \in {1, 2}}
+                         \cup {[p \in {"a", "b"} |-> IF p = "a" THEN D(1, 1, 64, <<>>) ELSE D(2, ci, 64, <<>>)] : ci \in AttIdx}
     [] t = "aggregator" -> {[p \in {"a", "b"} |-> IF p = "a" THEN D(1, 1, 64, <<>>) ELSE D(2, ci, cl, <<>>)] : ci \in {1, 2}, cl \in {16, 64}}
     [] t = "sync_contribution" -> {[p \in {"a", "b"} |-> IF p = "a" THEN D(1, 0, 0, <<5, 130>>) ELSE D(2, 0, 0, ix)] : ix \in {<<>>, <<7>>}}
     [] OTHER -> {[p \in {"a"} |-> D(1, 0, 0, <<>>)], [p \in {"a", "b"} |-> D(1, 0, 0, <<>>)]}
@@ -19,14 +19,13 @@ Answers(req) ==
                THEN BOOLEAN ELSE {FALSE}
   IN {Val(k, f) : k \in Toks, f \in flags} \cup {ErrAns("bn")}
      \cup (IF req.r \in {"bn_att", "bn_agg", "bn_con"} THEN {NilAns} ELSE {})
-OnlyInFlight == \E c \in DOMAIN calls : calls[c].kind = "only" /\ calls[c].status = "blocked"
 MCNext ==
   \/ \E t \in MCTypes : \E s \in MCSlots : \E defs \in DefSets(t) : NextId <= MaxCalls /\ StartFetch(NextId, [slot |-> s, type |-> t], defs)
   \/ \E s \in MCSlots : \E defs \in DefSets("attester") : \E h \in Toks :
         "attester" \in MCTypes /\ NextId <= MaxCalls /\ StartOnly(NextId, [slot |-> s, type |-> "attester"], defs, "bn1", h)
   \/ \E c \in DOMAIN calls : Blocked(c) /\ \E ans \in Answers(calls[c].req) : Release(c, ans)
-  \/ \E c \in DOMAIN calls : Blocked(c) /\ Cancel(c, "cancel")
-  \/ (reorgs < MaxReorgs /\ (StraddleOK \/ AllowStraddle \/ ~OnlyInFlight) /\ Reorg)
+  \/ \E c \in DOMAIN calls : Blocked(c) /\ WithCancel /\ Cancel(c, "cancel")
+  \/ (reorgs < MaxReorgs /\ Reorg)
 MCSpec == MCInit /\ [][MCNext]_vars
 Conf(nsubs, suberr, v2, only0) ==
   [electra |-> 2, only0 |-> only0, builder |-> TRUE, nsubs |-> nsubs, suberr |-> suberr, v2 |-> v2, gmode |-> "single",
